@@ -6,6 +6,7 @@ package c15
 
 import (
 	"context"
+	"encoding/json"
 	"flag"
 	"fmt"
 	"os"
@@ -96,6 +97,9 @@ type caseSpec struct {
 	MaxDelayMS int        `json:"max_delay_ms"`
 	Submitters [][]mtSpec `json:"submitters"`
 	Jitter     []int      `json:"jitter_us,omitempty"`
+	// Reports: the error reporting channel of the module system while the case runs: "" none, "unread" a channel nobody
+	// receives from, "full" a buffered channel that is full. Reporting a panic never waits for a receiver.
+	Reports string `json:"error_reporting_channel,omitempty"`
 }
 
 func genCase(t *rapid.T) *caseSpec {
@@ -132,6 +136,7 @@ func genCase(t *rapid.T) *caseSpec {
 		}
 		c.Submitters = append(c.Submitters, seq)
 	}
+	c.Reports = rapid.SampledFrom([]string{"", "", "unread", "full"}).Draw(t, "reports")
 	if rapid.Bool().Draw(t, "jitter") {
 		k := rapid.IntRange(1, 5).Draw(t, "jn")
 		for i := 0; i < k; i++ {
@@ -153,6 +158,31 @@ func runCase(t fatalf, c *caseSpec) (peak int32) {
 	modules.SetMaxConcurrentMicroTasks(c.Limit)
 	jitter.Store(&c.Jitter)
 	defer jitter.Store(nil)
+	switch c.Reports {
+	case "unread":
+		modules.SetErrorReportingChannel(make(chan *modules.ModuleError))
+	case "full":
+		ch := make(chan *modules.ModuleError, 1)
+		ch <- &modules.ModuleError{}
+		modules.SetErrorReportingChannel(ch)
+	default:
+		modules.SetErrorReportingChannel(nil)
+	}
+	defer func() {
+		// taking the channel away needs the lock that a report holds while it is made
+		reset := make(chan struct{})
+		go func() { modules.SetErrorReportingChannel(nil); close(reset) }()
+		select {
+		case <-reset:
+		case <-time.After(20 * time.Second):
+			buf := make([]byte, 1<<20)
+			buf = buf[:runtime.Stack(buf, true)]
+			js, _ := json.Marshal(c)
+			fmt.Fprintf(os.Stderr, "C15-3-stuck: 20 s after the case the lock of the error reporting is still held: the report of a panicking microtask waits for a receiver on the error reporting channel (%s), its counts are never given back; case %s\n%s\n", c.Reports, js, buf)
+			stats.Flush(1)
+			os.Exit(1)
+		}
+	}()
 	maxDelay := time.Duration(c.MaxDelayMS) * time.Millisecond
 
 	var gauge, peakV, over int32 // medium+low functions currently executing
@@ -287,7 +317,13 @@ func runCase(t fatalf, c *caseSpec) (peak int32) {
 	case <-finished:
 	case <-time.After(120 * time.Second):
 		running, thr, pm, pl := modules.VerifMicroTaskState()
-		t.Fatalf("C15-3-stuck: microtasks did not all finish within 120 s (bodies last <= 5 ms): global count %d, limit %d, pending clearances %d/%d; case %+v", running, thr, pm, pl, *c)
+		// whatever blocks them stays blocked: no further case (no shrinking either) can run in this process
+		buf := make([]byte, 1<<20)
+		buf = buf[:runtime.Stack(buf, true)]
+		js, _ := json.Marshal(c)
+		fmt.Fprintf(os.Stderr, "C15-3-stuck: microtasks did not all finish within 120 s (bodies last <= 5 ms): global count %d, limit %d, pending clearances %d/%d; case %s\n%s\n", running, thr, pm, pl, js, buf)
+		stats.Flush(1)
+		os.Exit(1)
 	}
 
 	// exactly once
@@ -370,6 +406,17 @@ func TestPropMicroTasks(t *testing.T) {
 		}
 		if len(c.Jitter) > 0 {
 			cls = append(cls, "with_jitter")
+		}
+		if c.Reports != "" {
+			panics := false
+			for _, sq := range c.Submitters {
+				for _, x := range sq {
+					panics = panics || x.Panic
+				}
+			}
+			if panics {
+				cls = append(cls, "panic_with_an_error_reporting_channel_that_is_"+c.Reports)
+			}
 		}
 		stats.Case(fmt.Sprintf("%+v", *c), n >= 2 && len(c.Submitters) >= 2, cls...)
 		if stats.WantSample("case") && len(c.Submitters) >= 3 {
